@@ -1,10 +1,125 @@
 import Driver.Common
-/-! C15 driver (stub: answers bad-op until the property's model is wired in). -/
+import Sourmash.Model.Nodegraph
+import Sourmash.Spec.Bloom
+/-! C15 driver: the nodegraph as a multi-table Bloom filter.  Model column = `NG.G` (block model of
+the code); spec column = the reference filter of `Spec/Bloom.lean` (sizes + inserted hashes).
+
+A case owns three filters (0, 1, 2).  `new`/`wt` cases give all three the same size vector; `mixed`
+cases give filter 2 another one (unions across different size vectors are outside the property: the
+spec column is `-` for a filter once it took part in one). -/
 open Driver
 
-def stepC15 (s : Unit) (ws : List String) : Unit × Resp :=
-  match ws with
-  | "case" :: _ => (s, { model := "ok" })
-  | _ => (s, { model := "bad-op" })
+structure SpecF where
+  r : Bloom.Ref
+  uniq : Nat := 0
+  ok : Bool := true       -- still inside the property's quantifier
 
-def main : IO Unit := Driver.run () stepC15
+structure St where
+  g : Array NG.G := #[]
+  s : Array SpecF := #[]
+
+def f64 (p : Nat × Nat) : String :=
+  let x := Float.ofNat p.1 / Float.ofNat p.2
+  if x.isNaN then "nan" else toString x.toBits
+
+def counters (g : NG.G) : String := s!"occ={g.occupied} uniq={g.unique}"
+def sCounters (f : SpecF) : String := s!"occ={f.r.occupied} uniq={f.uniq}"
+
+def kmerCodes (s : String) : List Nat := s.toList.map Char.toNat
+
+def sortDedup (l : List Nat) : List Nat :=
+  let a := l.toArray.qsort (· < ·)
+  a.toList.eraseDups
+
+def specInsert (f : SpecF) (h : Nat) : SpecF × Bool :=
+  let n := f.r.isNew h
+  ({ f with r := f.r.insert h, uniq := if n then f.uniq + 1 else f.uniq }, n)
+
+def b01 (b : Bool) : String := if b then "1" else "0"
+
+def stepC15 (st : St) (ws : List String) : St × Resp :=
+  match ws with
+  | ["case", _, "new", k, sizes] =>
+    let sz := natList sizes
+    let g := NG.G.new sz k.toNat!
+    ({ g := #[g, g, g], s := #[{ r := { sizes := sz } }, { r := { sizes := sz } }, { r := { sizes := sz } }] },
+     { model := showNats (g.tables.map (·.size)), spec := showNats sz })
+  | ["case", _, "wt", ts, n, k] =>
+    let g := NG.G.withTables ts.toNat! n.toNat! k.toNat!
+    let sz := g.tables.map (·.size)
+    ({ g := #[g, g, g], s := #[{ r := { sizes := sz } }, { r := { sizes := sz } }, { r := { sizes := sz } }] },
+     { model := showNats sz })
+  | ["case", _, "mixed", k, sa, sb] =>
+    let a := natList sa
+    let b := natList sb
+    let ga := NG.G.new a k.toNat!
+    let gb := NG.G.new b k.toNat!
+    ({ g := #[ga, ga, gb], s := #[{ r := { sizes := a } }, { r := { sizes := a } }, { r := { sizes := b } }] },
+     { model := "ok" })
+  | "case" :: _ => ({}, { model := "ok" })
+  | [op, i, x] =>
+    let i := i.toNat!
+    match st.g[i]?, st.s[i]? with
+    | some g, some f =>
+      if op == "count" || op == "kmer" then
+        let h? : Option Nat := if op == "count" then some x.toNat! else NG.hashKmer (kmerCodes x)
+        let hs : Option Nat := if op == "count" then some x.toNat! else
+          (if (kmerCodes x).all Bloom.isACGT && x.length ≥ 1 && x.length ≤ 32 then some (Bloom.canonical (kmerCodes x)) else none)
+        match h? with
+        | none => (st, { model := "PANIC" })
+        | some h =>
+          -- a 1-mer: the answer depends on the build profile (`hashKmer` vs `hashKmerChecked`):
+          -- the model column is silent, the specification decides
+          let silent := op == "kmer" && x.length == 1
+          let (g', r) := g.count h
+          let (f', rs) := match hs with
+            | some h' => specInsert f h'
+            | none => ({ f with ok := false }, false)
+          ({ g := st.g.set! i g', s := st.s.set! i f' },
+           { model := if silent then "-" else s!"{b01 r} {counters g'}",
+             spec := if f'.ok then s!"{b01 rs} {sCounters f'}" else "-" })
+      else if op == "get" || op == "getk" then
+        let h? : Option Nat := if op == "get" then some x.toNat! else NG.hashKmer (kmerCodes x)
+        let hs : Option Nat := if op == "get" then some x.toNat! else
+          (if (kmerCodes x).all Bloom.isACGT && x.length ≥ 1 && x.length ≤ 32 then some (Bloom.canonical (kmerCodes x)) else none)
+        match h?, hs with
+        | some h, some h' =>
+          let silent := op == "getk" && x.length == 1
+          (st, { model := if silent then "-" else toString (g.get h),
+                 spec := if f.ok then toString (f.r.get h') else "-" })
+        | some h, none => (st, { model := toString (g.get h) })
+        | none, _ => (st, { model := "PANIC" })
+      else if op == "upd" then
+        -- `src.update(&mut dst)`: i = dst, x = src
+        let j := x.toNat!
+        match st.g[j]?, st.s[j]? with
+        | some src, some fs =>
+          let g' := g.updateFrom src
+          let same := f.r.sizes == fs.r.sizes
+          let f' : SpecF := if same && f.ok && fs.ok then { f with r := f.r.union fs.r } else { f with ok := false }
+          ({ g := st.g.set! i g', s := st.s.set! i f' },
+           { model := s!"ok {counters g'}", spec := if f'.ok then s!"ok {sCounters f'}" else "-" })
+        | _, _ => (st, { model := "bad-op" })
+      else if op == "updmh" || op == "updbt" then
+        let hs := sortDedup (natList x)
+        let g' := g.updateHashes hs
+        let f' := hs.foldl (fun f h => (specInsert f h).1) f
+        ({ g := st.g.set! i g', s := st.s.set! i f' },
+         { model := s!"ok {counters g'}", spec := if f'.ok then s!"ok {sCounters f'}" else "-" })
+      else if op == "matches" then
+        let hs := sortDedup (natList x)
+        (st, { model := toString (g.matches hs),
+               spec := if f.ok then toString ((hs.filter (fun h => f.r.get h == 1)).length) else "-" })
+      else if op == "sim" || op == "cont" then
+        let j := x.toNat!
+        match st.g[j]?, st.s[j]? with
+        | some o, some fo =>
+          let m := if op == "sim" then g.similarity o else g.containment o
+          let sp := if op == "sim" then f.r.similarity fo.r else f.r.containment fo.r
+          (st, { model := f64 m, spec := if f.ok && fo.ok && f.r.sizes == fo.r.sizes then f64 sp else "-" })
+        | _, _ => (st, { model := "bad-op" })
+      else (st, { model := "bad-op" })
+    | _, _ => (st, { model := "bad-op" })
+  | _ => (st, { model := "bad-op" })
+
+def main : IO Unit := Driver.run ({} : St) stepC15
